@@ -169,6 +169,12 @@ def evaluate_case(pt, case):
     # natural density: the same compound given by its natural density
     nd = f.natural_density
     out["natural"] = scalar(pt, _natural(pt, s, nd), w)
+    # the keywords on a Formula object that already carries a (different) density: the keyword wins,
+    # however the compound is passed
+    from periodictable.formulas import formula as _formula
+    other = _formula(pyside.struct_objs(s, pt.elements), density=rho * 1.75)
+    out["natural-keyword-on-object"] = nc.scat_tuple(nsf.neutron_scattering(other, natural_density=nd, wavelength=w))
+    out["density-keyword-on-object"] = nc.scat_tuple(nsf.neutron_scattering(other, density=rho, wavelength=w))
     return f, atoms, N, out
 
 
@@ -225,6 +231,8 @@ def judge(run, pt, case, replies):
     rel.append(("Hill reordering", b, out["hill"], N))
     rel.append(("energy= vs wavelength=", b, out["energy"], N))
     rel.append(("natural_density vs density", b, out["natural"], N))
+    rel.append(("natural_density= keyword on a Formula object with its own density", b, out["natural-keyword-on-object"], N))
+    rel.append(("density= keyword on a Formula object with its own density", b, out["density-keyword-on-object"], N))
     if isinstance(out["vector"], str):
         rel.append(("vector vs scalar", out["scalars"][0], out["vector"], N))
     else:
